@@ -24,6 +24,8 @@ DESC = {m[0]: m[5] for m in mutants.M}
 
 def one(patch, tier, tests, ids):
     name = os.path.basename(patch).replace(".diff", "").replace(".patch", "")
+    if ids == ["expected"]:
+        ids = EXPECT.get(name, ["all"])
     cmd = [os.path.join(VERIF, "tools", "mutrun.py"), name, patch, "--tier", tier]
     if tests:
         cmd.append("--tests")
